@@ -56,6 +56,15 @@ PROPS["C12"] = {
     "explanation": "delegations/pools encode and regroup", "assumptions": [],
 }
 
+PROPS["C18"] = {
+    "modules": ["harness.c18"], "level": "model_checking", "design_ref": "DESIGN.md 2/C18",
+    "level_text": "map_capacities_to_instance runs on the live 869-entry catalogue with (core, ram, disk) as unbounded symbolic ints; the request space "
+                  "is cut into slabs along the catalogue's thresholds and z3 decides every filter comparison inside a slab, so the union of slabs is every "
+                  "request; result compared with a brute-force sufficiency / Pareto-minimality / largest oracle. Components: every catalogue entry x argument shape.",
+    "level_note": XH_NOTE,
+    "explanation": "instance sizing + component catalogue", "assumptions": [],
+}
+
 NOT_APPLICABLE = {
     "C01": "every value on the GraphML/JSON text path crosses expat/lxml/json C code and temp files, where a symbolic value is "
            "concretised; what remains would be concrete sampling, i.e. a different technique (store-level half is decided under C04/C20)",
